@@ -348,13 +348,29 @@ func extParse(fr *frame, a []value) value {
 	default:
 		panic(fmt.Sprintf("extParse: unsupported reader %T", rv))
 	}
-	prog, err := parser.Parse(parser.NewReader(r, fileName))
-	if err != nil {
-		return tuple{zero(types.NewPointer(astType(fr.i, "Program"))), errIface(fr, err)}
+	src, rerr := io.ReadAll(r)
+	if rerr != nil {
+		panic("extParse: " + rerr.Error())
 	}
-	c := &aconv{i: fr.i, ptrs: map[uintptr]*value{}}
-	return tuple{c.conv(reflect.ValueOf(prog)), iface{}}
+	key := fileName + "\x00" + string(src)
+	if c, ok := parseCache[key]; ok {
+		return c
+	}
+	prog, err := parser.Parse(parser.NewReader(strings.NewReader(string(src)), fileName))
+	var res value
+	if err != nil {
+		res = tuple{zero(types.NewPointer(astType(fr.i, "Program"))), errIface(fr, err)}
+	} else {
+		c := &aconv{i: fr.i, ptrs: map[uintptr]*value{}}
+		res = tuple{c.conv(reflect.ValueOf(prog)), iface{}}
+	}
+	parseCache[key] = res
+	return res
 }
+
+// parseCache: programs parsed through the native bridge, by file name + source text.
+// ASTs are not written to by the evaluator (and the store journal restores any write).
+var parseCache = map[string]value{}
 
 func astType(i *interpreter, name string) types.Type {
 	return i.prog.ImportedPackage("github.com/Syuparn/pangaea/ast").Type(name).Object().Type()
